@@ -432,6 +432,9 @@ def exit_obligations(V, outs, entry, is_gen):
             env = dict(entry.env)
             env['exc_class'] = SV(STR, z3.StringVal(exc.cls))
             env['EFFECTS'] = st.ghost.get('effects') or SV(SeqT(STR), z3.Empty(sort_of(SeqT(STR))))
+            for fn_ in c.free:
+                if fn_ in st.env and not isinstance(st.env[fn_], (MFn, MCls, MNS, MU)):
+                    env['NEW_' + fn_] = st.env[fn_]      # final value of a closure/global variable
             V.exits.append(('raise:' + exc.cls, st, exc))
             for e in c.ensures_exc + c.ensures_all:
                 ps = post_state(st, env)
